@@ -46,9 +46,13 @@ def run(tier, seed):
     M.run_image(chk, tier, seed, random.Random(seed + 17), PROP)
     rd = chk.rundir
 
-    g1 = C.tlc("GenAsmData", "gen_AsmData_pairs.cfg", rd, workers=8, heap="6g")
+    g1 = C.tlc("GenAsmData", "gen_AsmData_pairs.cfg", rd, workers=8, heap="6g", prefixes=("CASE ", "OVER "))
     chk.add_tlc(g1)
     progs = C.parse_payload(g1.lines, "CASE ")
+    over = C.parse_payload(g1.lines, "OVER ")
+    if not over or len(over[0]) < 150:
+        raise C.InfraError("no overlay programs")
+    progs += sorted(over[0], key=lambda x: json.dumps(x, sort_keys=True))
     nsim = 750 if tier == "quick" else 12000
     g2 = C.tlc("GenAsmData", "gen_AsmData_sim.cfg", rd, workers=4, heap="6g",
                simulate=nsim, depth=20, seed=seed)
@@ -91,10 +95,17 @@ def run(tier, seed):
         return [dict(s0, a=s0["a"] + BASE // bpa) if s0["k"] == "org" else s0 for s0 in p]
     smeta = {}
     mov = [(i, p) for i, p in enumerate(allp) if len(p) >= 2 and movable(p)]
-    for i, p in (mov if tier == "thorough" else rnd.sample(mov, min(len(mov), 700))):
+    # a byte behind the last statement shows where the location counter ended (statements that only move it - .align,
+    # .resb - are otherwise invisible in a program without labels); programs with such statements are drawn first
+    END = [dict(k="data", w=1, z=False, items=[dict(k="num", v=[0x5a, 0, 0, 0, 0, 0, 0, 0])])]
+    movers = [(i, p) for i, p in mov if any(s0["k"] in ("align", "res") for s0 in p)]
+    if tier != "thorough":
+        pick = rnd.sample(movers, min(len(movers), 500))
+        pick += rnd.sample([x for x in mov if x not in pick], min(len(mov) - len(pick), 500))
+    for i, p in (mov if tier == "thorough" else pick):
         cpu, bpa, big = CARRIERS[i % len(CARRIERS)]
         names = A.label_names(p)
-        for half, prog in (("lo", p), ("hi", [dict(k="org", a=BASE // bpa)] + shifted(p, bpa))):
+        for half, prog in (("lo", p + END), ("hi", [dict(k="org", a=BASE // bpa)] + shifted(p, bpa) + END)):
             cid = "t%d.%s" % (i, half)
             src = A.render_prog(prog, cpu, variant=i)
             cases.append((cid, "syms=%s imgmax=70000" % ";".join(names), src))
